@@ -174,3 +174,133 @@ Theorem C04_first_member_is_least :
     (group_first (hd [] gs) <= i)%N.
 Proof. exact dedup_first_least. Qed.
 Print Assumptions C04_first_member_is_least.
+(** ** instantiations of one generic definition stay together (and C03 completeness):
+    [types_equal] answers "equal" on two coincidence-free instantiations of one definition of a
+    program-derived registry ([RegistryOf], Model/Program.v), so the generation loop does not
+    fail with DuplicateTypePath on them and [ensure_unique] ([add_to_groups]) puts the later one
+    into the group of the earlier one.
+
+    PROVED for the fragment [teq_program_okb] (Model/ProgramTeq.v): no field is
+    [#[codec(compact)]]; every field type contains no Box / VecDeque, mentions only declared
+    non-skipped parameters, and mentions them only directly or under Vec / array / tuple /
+    Compact / Option / Result / Range / Cow; everything else in a field type (applications of
+    other definitions, BTreeMap / BTreeSet - whose registry entries hide a [Vec<..>] field -,
+    bit sequences) is closed.  Proof (Proofs/TeqComplete.v): an abstract-term
+    simulation.  Invariant: every compared pair of ids [(x, y)] is the pair of instances
+    [cs args1 c], [cs args2 c] of ONE open source term [c]; both GenericsLists are the frame of the
+    instantiation's own parameters - the same positions and names bound to the respective
+    arguments ([Rp]) - below frames pushed by builtin / prelude entries, all ALIGNED ([AL]: same
+    starts and names, entries = instances of the same open terms, so both lookups of a compared
+    pair give the same index); the visited sets are the instances
+    of one list of open terms above the two instantiations ([Inv]); "seen on the left iff seen
+    on the right" holds because the instances under one coincidence-free argument list determine
+    the instances under the other ([inj_n]).
+
+    MISSING for the full statement - and FALSE as it stands, see [C04_instantiations_stay_cf_refuted]:
+    parameters under applications of generic definitions and under BTreeMap / BTreeSet, Box /
+    VecDeque, compact-attribute fields. *)
+From V Require Import Model.Program Model.ProgramSkel Model.ProgramTeq Model.ProgramExamples Model.Settings Model.Generate Model.Shape
+  Proofs.KeepFirst Proofs.TeqComplete Proofs.ProgramExamples.
+
+Theorem C04_instantiations_stay_partial :
+  forall defs L r,
+  RegistryOf defs L r ->
+  forall d sd, nth_error defs d = Some sd -> teq_program_okb sd = true ->
+  forall args1 args2,
+  instantiation_cf defs sd args1 = true -> map canon args1 = args1 ->
+  instantiation_cf defs sd args2 = true -> map canon args2 = args2 ->
+  forall id1 id2, L id1 = Some (SApp d args1) -> L id2 = Some (SApp d args2) ->
+  types_equal_res r id1 id2 = Ok true.
+Proof. exact teq_instantiations_labels. Qed.
+Print Assumptions C04_instantiations_stay_partial.
+
+(** ... for whole registries: a program-derived registry all of whose definitions are in the
+    fragment (and do not sit at the path of a bit-order marker), with pairwise distinct definition
+    paths and coincidence-free interned instantiations, is left UNTOUCHED by [ensure_unique]:
+    every path family forms one group ("instantiations of one generic definition still share one
+    path", here: nothing is renamed at all) *)
+Theorem C04_program_untouched_partial :
+  forall defs L r,
+  RegistryOf defs L r -> ids_consistent r = true ->
+  (forall sd, In sd defs -> teq_program_okb sd = true /\ forall lsb, sd_path sd <> order_path_of lsb) ->
+  (forall d1 d2 sd1 sd2,
+     nth_error defs d1 = Some sd1 -> nth_error defs d2 = Some sd2 -> sd_path sd1 = sd_path sd2 -> d1 = d2) ->
+  (forall id d args sd,
+     L id = Some (SApp d args) -> nth_error defs d = Some sd ->
+     instantiation_cf defs sd args = true /\ map canon args = args) ->
+  ensure_unique r = Ok r.
+Proof. exact program_dedup_untouched. Qed.
+Print Assumptions C04_program_untouched_partial.
+
+(** ... and generation does not fail with DuplicateTypePath on it: every comparison the loop
+    performs ([comparisons], C03_keep_first_or_error) answers "equal"; hence generation succeeds
+    whenever nothing else fails ([all_ok]: every item-eligible entry yields an IR and a lexical
+    module path).  This is the [P] "generation succeeds on such registries" of C05 on the fragment *)
+Theorem C04_program_no_duplicate_path_partial :
+  forall defs L r s,
+  RegistryOf defs L r -> ids_consistent r = true ->
+  (forall sd, In sd defs -> teq_program_okb sd = true /\ forall lsb, sd_path sd <> order_path_of lsb) ->
+  (forall d1 d2 sd1 sd2,
+     nth_error defs d1 = Some sd1 -> nth_error defs d2 = Some sd2 -> sd_path sd1 = sd_path sd2 -> d1 = d2) ->
+  (forall id d args sd,
+     L id = Some (SApp d args) -> nth_error defs d = Some sd ->
+     instantiation_cf defs sd args = true /\ map canon args = args) ->
+  Forall (fun c : cmp => types_equal r (fst (fst c)) (snd (fst c)) = Ok true) (comparisons r s) /\
+  forall flat, flatten (s_dreg s) r = Ok flat -> all_ok r s flat r ->
+               exists m, generate r s (types_equal r) = Ok m.
+Proof.
+  intros defs L r s HR Hids Hdefs Hpaths Hinst.
+  exact (conj (program_comparisons_equal defs L r s HR Hids Hdefs Hpaths Hinst)
+              (program_generates defs L r s HR Hids Hdefs Hpaths Hinst)).
+Qed.
+Print Assumptions C04_program_no_duplicate_path_partial.
+
+(** non-vacuity: [a::Pt<T> { x: T, ys: Vec<T>, p: (T, u8), o: Option<u32>, m: Option<T>, e: Result<T, u8>,
+    g: Range<T> }] at [u16] and [bool] *)
+Theorem C04_instantiations_stay_example :
+  RegistryOf ex7_defs (label_at ex7_labels) ex7_reg /\
+  nth_error ex7_defs 0 = Some ex7_sd /\ teq_program_okb ex7_sd = true /\
+  instantiation_cf ex7_defs ex7_sd [SPrimT PU16] = true /\ instantiation_cf ex7_defs ex7_sd [SPrimT PBool] = true /\
+  label_at ex7_labels 0 = Some (SApp 0 [SPrimT PU16]) /\ label_at ex7_labels 10 = Some (SApp 0 [SPrimT PBool]) /\
+  types_equal_res ex7_reg 0 10 = Ok true.
+Proof. exact (conj ex7_RegistryOf ex7_hypotheses). Qed.
+Print Assumptions C04_instantiations_stay_example.
+
+(** REFUTATION of the statement without the fragment (on the faithful model, and reproduced on
+    the implementation: corpus/findings/F18b_nested_outer_coincidence.json replayed through
+    [./check.sh C04 quick --replay ..] gives DuplicateTypePath and the renaming a::D1 / a::D2): [a::D<T, U> { a: Wrap<T>, b: U }], [a::Wrap<X> { v: Vec<X> }] at
+    [(u8, Vec<u8>)] and [(u16, Vec<u16>)].  The registry is program-derived, ALL FOUR interned
+    instantiations are coincidence-free in the sense of [instantiation_cf] (the three conditions
+    of C05's quantifier read on the source field types of one definition), the registry is
+    skeleton-consistent - and [types_equal] judges the two instantiations of [D] different, so
+    generation fails with DuplicateTypePath("a::D") and de-duplication would split them.  Inside
+    [Wrap<u8>] the field type [Vec<u8>] is the id bound to the OUTER parameter [U] (on both
+    sides), so the field is decided by its recorded name ["Vec<X>"], which is no parameter name.
+    The coincidence condition would have to look through nested definitions ("deep" components). *)
+Theorem C04_instantiations_stay_cf_refuted :
+  RegistryOf f19_defs (label_at f19_labels) f19_reg /\
+  instantiation_cf f19_defs (nth 0 f19_defs pe_default) [SPrimT PU8; SVec (SPrimT PU8)] = true /\
+  instantiation_cf f19_defs (nth 0 f19_defs pe_default) [SPrimT PU16; SVec (SPrimT PU16)] = true /\
+  instantiation_cf f19_defs (nth 1 f19_defs pe_default) [SPrimT PU8] = true /\
+  instantiation_cf f19_defs (nth 1 f19_defs pe_default) [SPrimT PU16] = true /\
+  skeleton_consistentb f19_reg f19_s = true /\
+  types_equal_res f19_reg 0 4 = Ok false /\
+  generate f19_reg f19_s (types_equal f19_reg) = Err (EDuplicatePath "a::D").
+Proof. exact (conj f19_RegistryOf f19_facts). Qed.
+Print Assumptions C04_instantiations_stay_cf_refuted.
+
+(** a second refutation, with ONE non-nested definition: [a::D<T, U> { m: BTreeMap<u8, T>, w: Vec<U> }]
+    at [(u16, Vec<(u8, u16)>)] and [(bool, Vec<u32>)].  The entry of [BTreeMap<u8, u16>] has a
+    hidden field of type [Vec<(u8, u16)>] (no component of the source field type, so
+    [instantiation_cf] holds); its id enters the left visited set while the maps are compared, and
+    at [w: Vec<U>] the both-or-neither-visited rule sees (seen, not seen) and answers "different".
+    This is why BTreeMap / BTreeSet with parameters are outside [teq_program_okb]. *)
+Theorem C04_instantiations_stay_cf_refuted_hidden :
+  RegistryOf f19b_defs (label_at f19b_labels) f19b_reg /\
+  instantiation_cf f19b_defs (nth 0 f19b_defs pe_default) f19b_args1 = true /\
+  instantiation_cf f19b_defs (nth 0 f19b_defs pe_default) f19b_args2 = true /\
+  skeleton_consistentb f19b_reg f19_s = true /\
+  types_equal_res f19b_reg 0 7 = Ok false /\ types_equal_res f19b_reg 7 0 = Ok false /\
+  generate f19b_reg f19_s (types_equal f19b_reg) = Err (EDuplicatePath "a::D").
+Proof. exact (conj f19b_RegistryOf f19b_facts). Qed.
+Print Assumptions C04_instantiations_stay_cf_refuted_hidden.
